@@ -934,3 +934,80 @@ func ruleREF5(p *Program) *RuleResult {
 	r.floor("canonicals", 27)
 	return r
 }
+
+// ---------- REF6: the parsers are pure ----------
+
+// No function of the reference / canonical / identity code writes package-level
+// state or uses a package-level mutable container (cache): a parse result must
+// depend on the parsed string only, and results handed to one caller must not
+// be shared with (and later modified through) another.
+func ruleREF6(p *Program) *RuleResult {
+	r := newResult("REF6")
+	prefixes := []string{"internal/element/reference/", "internal/element/canonical/", "internal/resource/identity.go", "internal/resource/canonical_identity.go"}
+	for _, fn := range p.RepoFuncs() {
+		if len(fn.Blocks) == 0 || strings.HasPrefix(fn.Name(), "init") {
+			continue
+		}
+		pos := p.pos(fn.Pos())
+		in := false
+		for _, pre := range prefixes {
+			if strings.HasPrefix(pos, pre) {
+				in = true
+			}
+		}
+		if !in {
+			continue
+		}
+		r.count("functions", 1)
+		for _, b := range fn.Blocks {
+			for _, ins := range b.Instrs {
+				for _, op := range ins.Operands(nil) {
+					g, ok := (*op).(*ssa.Global)
+					if !ok || !inRepoPath(g.Pkg.Pkg.Path()) {
+						continue
+					}
+					r.count("global_uses", 1)
+					elem := g.Type().(*types.Pointer).Elem()
+					// reads of immutable globals: loads of error sentinels, regexps, strings and other scalars
+					if ld, isLoad := ins.(*ssa.UnOp); isLoad && ld.X == ssa.Value(g) {
+						if isErrorType(elem) || typeShort(elem) == "*regexp.Regexp" {
+							continue
+						}
+						if _, basic := elem.Underlying().(*types.Basic); basic {
+							continue
+						}
+						// a registry map that is only looked up / ranged over here
+						if _, isMap := elem.Underlying().(*types.Map); isMap && ld.Referrers() != nil {
+							ro := true
+							for _, ref := range *ld.Referrers() {
+								switch ref.(type) {
+								case *ssa.Lookup, *ssa.Range, *ssa.DebugRef:
+								default:
+									ro = false
+								}
+							}
+							if ro {
+								continue
+							}
+						}
+					}
+					key := short(fn) + "|" + g.Name()
+					switch x := ins.(type) {
+					case *ssa.Store:
+						if x.Addr == ssa.Value(g) {
+							r.bad(key, short(fn)+" stores to the package-level variable "+g.Name(), p.instrPos(ins), "parsing and formatting must not depend on earlier calls")
+							continue
+						}
+					}
+					r.bad(key, short(fn)+" uses the package-level "+typeShort(elem)+" "+g.Name()+" (address taken / mutable container)", p.instrPos(ins),
+						"a cache or other shared container makes parse results depend on earlier calls and shares result objects between callers")
+				}
+			}
+		}
+	}
+	if len(r.Obs) == 0 {
+		r.ok("reference|pure", fmt.Sprintf("the %d reference/identity/canonical functions use package-level state only by loading error sentinels, regexps and scalars", r.Analysed["functions"]), "internal/element/reference", "operand inventory", true)
+	}
+	r.floor("functions", 40)
+	return r
+}
